@@ -292,4 +292,17 @@ theorem documentedIn_eq_accepts (tbl : List LetterRow) (h : LettersOK tbl) (k : 
       have hn : r.noSwitch = false := by simpa using hcore.1.1
       rw [hn, hs]; simp
 
+/-! ### the side condition on the regenerated case table -/
+
+/-- every row was recognised, the ranges are well formed, sorted and disjoint — what makes the linear search of
+    `toCase` find the range Go's binary search finds -/
+def caseTableOKb : List Pcore.UnicodeCase.CaseRange → Bool
+  | [] => true
+  | [r] => r.unknown.isEmpty && decide (r.lo ≤ r.hi)
+  | r :: r2 :: rest => r.unknown.isEmpty && decide (r.lo ≤ r.hi) && decide (r.hi < r2.lo) && caseTableOKb (r2 :: rest)
+
+def CaseTableOK (t : List Pcore.UnicodeCase.CaseRange) : Prop := caseTableOKb t = true
+
+instance (t : List Pcore.UnicodeCase.CaseRange) : Decidable (CaseTableOK t) := by unfold CaseTableOK; infer_instance
+
 end Pcore.Format
